@@ -1,15 +1,31 @@
-"""C19 - parametrised model builders (gamma: abstract configuration tuple -> concrete ONNX model + feeds).
+"""C19 - ONNX Runtime fusions preserve numerical results.
 
-One builder per pattern family.  A configuration is a flat dict of ints/strings/bools that is
-produced by spec/OrtFusion.tla; everything in here is determined by the configuration and the seed.
-Builders are derived from the builders used in onnxscript/rewriter/ort_fusions/*_test.py but every
-size / optional input / operand order / attribute is a parameter.
+spec/OrtFusion.tla   pipeline protocol of ort_fusions/_core.py (one action per step), the check_shape unifier, per-fusion
+                     guards transcribed from pattern()+check(), the fused operators' own constraints (Safe_F) and the named
+                     deviations; enumerates the configuration tuples of nine pattern families and prints one C19CASE line per
+                     (configuration, pipeline) with the predicted fusion counts, fused operators left, and observable.
+spec/FusedMatMul.tla fused_matmul_rule_sets.py as a term-rewriting system with exact integer tensor semantics (Tensor.tla).
+
+This harness (direction A) concretises every printed configuration with a parametrised model builder (gamma), drives the real
+fuse_* chain and optimize_for_ort on it, projects the outcome (fusion_count dictionary, operator census, rewritten MatMul term:
+alpha) and runs the model before/after on ONNX Runtime:
+  VIOLATION      the real code breaks the property as stated (fused model returns other values / is refused by ORT although the
+                 original runs / the fusion raises), attributed to a named deviation of the spec when one explains it;
+  SPEC-MISMATCH  the real code departs from the implementation model without breaking the property (warning only).
+Everything below the builders is determined by the configuration record and ctx.seed.
 """
 from __future__ import annotations
+
+import json
+import random
+import re
+import traceback
 
 import numpy as np
 import onnx
 from onnx import TensorProto, helper, numpy_helper
+
+from . import core
 
 F32 = TensorProto.FLOAT
 F16 = TensorProto.FLOAT16
@@ -478,8 +494,6 @@ def classify_ort_error(e) -> str:
 
 def run_ort(model_proto, feeds):
     """('ok', outputs) | ('load:<class>', msg) | ('run:<class>', msg)"""
-    from . import core
-
     try:
         sess = core.ort_session(model_proto)
     except Exception as e:  # noqa: BLE001
@@ -519,14 +533,6 @@ def compare(before, after, dt):
 BUILDERS = {}
 
 
-def builder(name):
-    def deco(f):
-        BUILDERS[name] = f
-        return f
-
-    return deco
-
-
 for _n, _f in (("rms", build_rms), ("skipln", build_skipln), ("gelu", build_gelu), ("matmul", build_matmul),
                ("softmax", build_softmax), ("groupnorm", build_groupnorm)):
     BUILDERS[_n] = _f
@@ -542,8 +548,6 @@ def _scaled(g, v, how, factor, npd):
         return g.op("Mul", v, g.const(np.array(factor, npd)))
     if how == "div":
         return g.op("Div", v, g.const(np.array(1.0 / factor, npd)))
-    if how == "mulvec":  # near-miss: per-element scale, not a scalar
-        return g.op("Mul", v, g.const(np.full((1, 1, 1, 1), factor, npd) if False else np.array([factor, factor], npd)[:1].repeat(1)))
     raise ValueError(how)
 
 
@@ -901,15 +905,6 @@ BUILDERS["gqa"] = build_gqa
 # =================================================================================================
 # conformance: replay the cases printed by TLC
 # =================================================================================================
-import json
-import os
-import random
-import re
-import sys
-import threading
-import traceback
-
-from . import core
 
 LEVEL = "model_checking"
 FUSION_DOMAIN_OR_CONTRIB = re.compile(r"^(com\.microsoft|ai\.onnxruntime\._fusion)::")
